@@ -157,3 +157,24 @@ Proof.
   change (/ 2 * bpow radix2 53) with (bpow radix2 (-1) * bpow radix2 53). rewrite <- bpow_plus.
   change (bpow radix2 (-1 + 53)) with (IZR (2 ^ 52)). apply IZR_le. lia.
 Qed.
+
+(* The coefficient half of the projection part, at the level of the checker: if every reported
+   coefficient is SOME summation-tree evaluation of its projector row with the record, chk_coefs accepts. *)
+Definition coefficients_meet_definitions : Prop :=
+  forall (P : list (list dy)) (d : list Z) (c : list dy),
+    (1 <= length d)%nat -> (zlen d < 2 ^ 52)%Z ->
+    Forall2 (fun row ci => length row = length d /\
+                           exists t, Permutation (leaf_list t) (pairsR row d) /\ dyR ci = evalf t) P c ->
+    chk_coefs (zlen d) P d c = true.
+
+Lemma coefficients_meet_all : coefficients_meet_definitions.
+Proof.
+  intros P d c Hne Hbig Hall. unfold chk_coefs.
+  assert (Hlen : length P = length c) by (induction Hall; cbn [length]; congruence).
+  apply andb_true_intro. split.
+  - unfold zlen. rewrite Hlen. apply Z.eqb_refl.
+  - induction Hall as [|row ci P' c' [Hrow (t & Hperm & Hc)] _ IH]; cbn [combine forallb]; auto.
+    apply andb_true_intro. split.
+    + cbn [fst snd]. apply (coef_check_accepts_any_tree row d t ci); auto.
+    + apply IH. cbn [length] in Hlen. lia.
+Qed.
